@@ -807,6 +807,12 @@ static int parse_complete(token_t *tok)
         }
         next_token(tok);
     }
+    if (t1complex != 0) {
+        /* qualifiers may stand between the specifiers: 'float const _Complex'
+           (they are ignored, like in parse_sequel()) */
+        while (tok->kind == TOK_CONST || tok->kind == TOK_VOLATILE)
+            next_token(tok);
+    }
     if (tok->kind == TOK__COMPLEX)
     {
         if (t1complex == 0)
